@@ -11,32 +11,32 @@ def repo_hook_commits():
         return []
 
 CHECKS = {
- "C02": dict(level="model_checking", ref="3 C02/C13", technique="exhaustive input-shape enumeration (E-SHAPE) of restriction sets on an integer grid through the real PathTpc::extend, pointwise-min reference model, all extension partitions",
+ "C02": dict(level="model_checking", ref="3 C02/C13", technique="exhaustive input-shape enumeration (E-SHAPE) of restriction sets on an integer grid through the real PathTpc::extend, pointwise-min reference model, all extension partitions; train parameters also derived by TrainConfig::make_train_params from configurations with zero-count car types",
    text="Every sorted restriction list up to the stated size on a 100 m grid (nested, overlapping, abutting, duplicate-bound, inside another, filtered by speed_max), head/tail-end, train lengths, gating conditions on both sides of every comparison, and every way of splitting 2-3-link routes into extend calls is run through the real PathTpc::extend; the enforced profile is compared with the pointwise minimum of the posted limits on every open interval. Bounded exhaustive: nothing in the stated space is skipped.",
    note="trusts the harness reference (pointwise min, 40 lines) and the mid-interval comparison convention; grid positions and three speed values only"),
- "C13": dict(level="model_checking", ref="3 C02/C13", technique="exhaustive input-shape enumeration (E-SHAPE) of restriction sets on an integer grid through the real PathTpc::extend, equality with pointwise-min reference + canonical-form check",
+ "C13": dict(level="model_checking", ref="3 C02/C13", technique="exhaustive input-shape enumeration (E-SHAPE) of restriction sets on an integer grid through the real PathTpc::extend, equality with pointwise-min reference + canonical-form check; train parameters also derived by TrainConfig::make_train_params from configurations with zero-count car types",
    text="Same exploration as C02 with the tightness oracle: enforced limit == min(speed_max, restrictions covering x) on every open interval, profile sorted, starts at 0, no equal-valued neighbours, accepted by the library's own validator, identical for every extension partition.",
    note="as C02"),
 }
 
 PT_NOTE = "trusts the harness's 60-line ledger/limit recomputation and the tolerance band of DESIGN 1.6; parameter values at the PT alphabet points only; bounded depth (FULL(d), DEV(L,k))"
 CHECKS.update({
- "C01": dict(level="model_checking", ref="3 C01", technique="exhaustive operation-sequence exploration (E-SEQ FULL(d)+DEV(L,k)) of real Locomotive/Consist objects over state-relative demand letters, ledger oracle on every prefix, traces re-run through LocomotiveSimulation::walk",
+ "C01": dict(level="model_checking", ref="3 C01", technique="exhaustive operation-sequence exploration (E-SEQ FULL(d)+DEV(L,k)) of real Locomotive/Consist objects over state-relative demand letters, ledger oracle on every prefix, traces re-run through LocomotiveSimulation::walk; reported loss totals (get_energy_loss) against component sums",
    text="Every demand sequence up to the stated depth / deviation bound from a 52-letter alphabet (demands relative to the limits just published, four step sizes incl. one that carries the small pack through its SOC window) on every powertrain configuration of the PT family is executed on the real objects exactly as the simulation loop drives them; every per-step hand-off and every cumulative identity of the energy ledger is evaluated on every accepted step. Bounded exhaustive, float-valued tree (no state merging).",
    note=PT_NOTE),
- "C08": dict(level="model_checking", ref="3 C08", technique="exhaustive operation-sequence exploration (E-SEQ) with the engine-command dimension (on/None/off), second-law oracle on every accepted step",
+ "C08": dict(level="model_checking", ref="3 C08", technique="exhaustive operation-sequence exploration (E-SEQ) with the engine-command dimension (on/None/off), second-law oracle on every accepted step; engine-off clause on conventional, hybrid and battery-electric units",
    text="The C01 exploration with engine on/None/off letters added; per component loss >= 0, 0 < eta <= 1, |out| <= |in| in the direction of flow, cumulative fuel/loss/dyn-brake energies monotone, no dyn-brake power without braking demand, engine off => no fuel, no aux.",
    note=PT_NOTE),
- "C09": dict(level="model_checking", ref="3 C09", technique="exhaustive operation-sequence exploration (E-SEQ) with adversarial letters at / just below / just above every published limit; accepted over-limit step = violation",
+ "C09": dict(level="model_checking", ref="3 C09", technique="exhaustive operation-sequence exploration (E-SEQ) with adversarial letters at / just below / just above every published limit; accepted over-limit step = violation; plus E-SEQ on the stand-alone ReversibleEnergyStorage API with every combination of charge / discharge energy buffers",
    text="Demands are chosen relative to the limits the object has just published (at, 1e-9 below, just above the code's tolerance, 20 % above; regen and dyn-brake likewise, -1.01 x drivetrain rating); on every accepted step ratings, transient limit, ramp rate (against the shaft power the generator actually took), battery charge/discharge limits, SOC window and sanity of the published limits are checked.",
    note=PT_NOTE),
 })
 
 CHECKS.update({
- "C10": dict(level="model_checking", ref="3 C10", technique="exhaustive operation-sequence exploration (E-SEQ) of real Consist objects over all ordered compositions of <= 3 unit variants (+ all {conv,BEL}^4) x both policies x consist-level demand letters incl. the battery-first boundary",
+ "C10": dict(level="model_checking", ref="3 C10", technique="exhaustive operation-sequence exploration (E-SEQ) of real Consist objects over all ordered compositions of <= 3 unit variants (+ all {conv,BEL}^4) x both policies x consist-level demand letters incl. the battery-first boundary; engine command letters (on / off / None) on the public consist API",
    text="Every ordered composition up to 3 units from the unit-variant alphabet (differing ratings and SOC, units inside both derating ramps and at the SOC floor), all {conv,BEL}^4 and representative 5..8-unit consists, under Proportional and RESGreedy, are stepped through every demand sequence within the bound; on every accepted step the split is checked for conservation, per-unit capability, sign discipline, regeneration placement and battery-first dispatch.",
    note="stated bound n <= 4 exhaustive, larger consists representative; trusts the per-unit limits the units publish (those are C09's subject)"),
- "C16": dict(level="fault_enumeration", ref="3 C16", technique="exhaustive single-fault enumeration: every mutation kind x every link x every valid base network, through every loader; independent reference validity predicate",
+ "C16": dict(level="fault_enumeration", ref="3 C16", technique="exhaustive single-fault enumeration: every mutation kind x every link x every valid base network, through every loader; independent reference validity predicate; plus text-level faults (index fields of the JSON / YAML file outside the u32 range)",
    text="Each documented rule is broken in isolation at every link of every base network (plus out-of-range, NaN, infinite and negative field values, and mutations that must stay valid), and the verdict of ObjState::validate / Network::from_json / from_yaml / from_file is compared with an independently written reference predicate; a panic is a violation; the legacy file layout must load to the same network.",
    note="trusts the 150-line reference predicate written from the documented rules; single faults only (no fault pairs)"),
 })
@@ -49,7 +49,7 @@ CHECKS.update({
 
 TR_NOTE = "trusts the reference geometry walk, the independent re-aggregation of car parameters and the tolerance band of DESIGN 1.6; trace alphabet accel in {-0.3, 0, +0.2} m/s^2 x dt in {0.5, 1, 2.5} s; bounded depth"
 CHECKS.update({
- "C07": dict(level="model_checking", ref="3 C07", technique="exhaustive operation-sequence exploration (E-SEQ FULL(d)+DEV(L,k)) of real SetSpeedTrainSim objects (one trace point + one real step per letter) over catalogue routes x trains; reference physics from the network's own points; traces re-run through walk()",
+ "C07": dict(level="model_checking", ref="3 C07", technique="exhaustive operation-sequence exploration (E-SEQ FULL(d)+DEV(L,k)) of real SetSpeedTrainSim objects (one trace point + one real step per letter) over catalogue routes x trains; reference physics from the network's own points; traces re-run through walk(); hand-assembled resistance models (path caches constructed on the populated path through the secondary builder entry point)",
    text="Every speed-trace continuation within the bound is stepped on real simulators over routes whose links are shorter and longer than one step of travel and than the train; on every accepted step weight, grade, curve, rolling, Davis-B, bearing and aero forces, front elevation and front/rear grades are compared with their definitions evaluated on a reference built from the network's own elevation and heading points.",
    note=TR_NOTE),
  "C11": dict(level="model_checking", ref="3 C11", technique="exhaustive operation-sequence exploration (E-SEQ) of real SetSpeedTrainSim objects; cross-level power/energy agreement on every accepted step",
@@ -58,13 +58,13 @@ CHECKS.update({
  "C12": dict(level="model_checking", ref="3 C12", technique="exhaustive operation-sequence exploration (E-SEQ) of real SetSpeedTrainSim objects incl. steps crossing several 5 m links; kinematic bookkeeping oracle on consecutive states",
    text="On every accepted step: time advances by dt, front position by dt times mean speed, rear = front - length, total distance accumulates |move|, and (front segment, in-segment offset) identify the front position on the reference route.",
    note=TR_NOTE),
- "C14": dict(level="model_checking", ref="3 C14", technique="exhaustive operation-sequence exploration (E-SEQ) of real SetSpeedTrainSim objects with irregular time stamps; wheel-power reference; negative-speed probes at every position",
+ "C14": dict(level="model_checking", ref="3 C14", technique="exhaustive operation-sequence exploration (E-SEQ) of real SetSpeedTrainSim objects with irregular time stamps; wheel-power reference; negative-speed probes at every position; brake-to-stand and dwell steps",
    text="On every accepted step time and speed are bit-equal to the trace, wheel power equals the clipped sum of compound-mass inertia power and resistance power, energies advance by power times the trace's own dt; a negative trace speed at every position of a run must be rejected.",
    note=TR_NOTE + "; the rate clip is accepted with either the current or the previous dt (watch item D12)"),
 })
 
 CHECKS.update({
- "C03": dict(level="model_checking", ref="3 C03", technique="exhaustive input-shape enumeration (E-SHAPE) of restriction profiles x grades x trains x path-extension schedules, each run on a real SpeedLimitTrainSim stepped with the real step(); safety oracle on every step; whole-path runs re-run through walk()",
+ "C03": dict(level="model_checking", ref="3 C03", technique="exhaustive input-shape enumeration (E-SHAPE) of restriction profiles x grades x trains x path-extension schedules, each run on a real SpeedLimitTrainSim stepped with the real step(); safety oracle on every step; whole-path runs re-run through walk(); speed sets gated by train-parameter conditions (thresholds placed relative to the train)",
    text="Every 3-zone restriction profile over the cut-point grid (incl. all short fast windows), head/tail-end, six grade shapes (incl. steep downgrades easing off), three trains (incl. 60 loaded cars behind one locomotive, also with a 10 s friction-brake ramp) and two departure times is simulated whole-path, link-by-link at three extension thresholds, through the real walk_timed_path with every single-entry delay, and through make_est_times; every step is checked for speed >= 0, speed <= reference posted limit at the front position and <= the simulator's own limit, target <= limit; the run must end at rest inside the stopping window with Ok or a descriptive Err - a panic (the in-code overspeed assert) is a violation.",
    note="reference limit = C13 reference (pointwise min, tail-end extended by train length); 3 km routes on a fixed cut-point grid; the known overspeed-assert defect is listed in KNOWN_FINDINGS.txt under four keys of one input class"),
 })
@@ -73,10 +73,10 @@ for k in ("C07","C11","C12"):
 
 DISP_NOTE = "needs hook H1 (feature verif-hooks) to see intermediate dispatch states; scenario family bounded as stated in the evidence rule; occupancy semantics recomputed from disp_path events; events such as rewind/re-route are reported as measured (not assumed to occur)"
 CHECKS.update({
- "C04": dict(level="model_checking", ref="3 C04/C05", technique="exhaustive enumeration (E-SHAPE) of dispatch scenarios (topology x every ordered train set incl. all departure orderings and ties) on the real run_dispatch; reachable dispatch states observed through hook H1 after every tentative advance, rewind and completed train move; occupancy-window oracle on every state and on the returned plan, rewind-restores-occupancy differential oracle",
+ "C04": dict(level="model_checking", ref="3 C04/C05", technique="exhaustive enumeration (E-SHAPE) of dispatch scenarios (topology x every ordered train set incl. all departure orderings and ties) on the real run_dispatch; reachable dispatch states observed through hook H1 after every tentative advance, rewind and completed train move; occupancy-window oracle on every state and on the returned plan, rewind-restores-occupancy differential oracle; double-track topologies with lockout declarations on the links roll-backs hand back",
    text="For every scenario in the bounded family the real dispatcher is run once and its state is observed after every tentative advance, every rewind, every completed train move and at the end; on each state occupancy windows are recomputed from the trains' own event paths and checked: opposing trains never overlap on a physical segment, mutually exclusive segments are never held together, followers keep the configured entry and exit headway and never change order inside a segment; plus a black-box necessary condition on the returned timed paths, and after every rewind the authority table and links_blocked must equal what they were at the previous completed move.",
    note=DISP_NOTE),
- "C05": dict(level="model_checking", ref="3 C04/C05", technique="exhaustive enumeration (E-SHAPE) of dispatch scenarios on the real run_dispatch in a debug-assertions build (UB checks on get_unchecked, overflow checks), crash-isolated workers; plan-validity oracle incl. free-running times from the final TrainDisp (hook H1)",
+ "C05": dict(level="model_checking", ref="3 C04/C05", technique="exhaustive enumeration (E-SHAPE) of dispatch scenarios on the real run_dispatch in a debug-assertions build (UB checks on get_unchecked, overflow checks), crash-isolated workers; plan-validity oracle incl. free-running times from the final TrainDisp (hook H1); double-track topologies with lockout declarations on the links roll-backs hand back",
    text="Every scenario must terminate with either a complete plan (one non-empty, contiguous, origin-to-destination route per train, starting at or after departure, non-decreasing finite times, never faster than the train's own free-running times along the chosen path, identical to the final dispatch state) or an error naming the stuck trains; a panic, an assert, a UB-check abort or a hang is a violation attributed to the scenario.",
    note=DISP_NOTE),
 })
@@ -94,19 +94,19 @@ CHECKS.update({
 })
 
 CHECKS.update({
- "C20": dict(level="model_checking", ref="3 C20", technique="explicit-state search (BFS with deduplication on the serialized object) over setter sequences on FuelConverter / Generator / ReversibleEnergyStorage / Locomotive (conv, BEL, dummy) from every known/unknown initial file; reference model of each documented side-effect option; roll-up checks for Consist and TrainSimBuilder",
+ "C20": dict(level="model_checking", ref="3 C20", technique="explicit-state search (BFS with deduplication on the serialized object) over setter sequences on FuelConverter / Generator / ReversibleEnergyStorage / Locomotive (conv, BEL, dummy) from every known/unknown initial file; reference model of each documented side-effect option; roll-up checks for Consist and TrainSimBuilder; every subset of consist units with unknown mass",
    text="All setter sequences up to the stated depth are applied to the real objects from every combination of known/unknown mass data (loaded through the real from_json/init, incl. redundant inconsistent files); states are deduplicated on the serialized object (a true reachable-state search: states, transitions and max depth are reported). After every transition: accepted updates keep the getters answering and consistent, the stored fields equal what the chosen side-effect option documents, a rejected update leaves the object byte-identical; consist mass/force and train static mass/weight equal their sums.",
    note="depth-bounded; two mass values, two adhesion values, two force values (one consistent with (mu1, m1)); the dummy locomotive's derived mass of exactly 0 kg is treated as degenerate for mu = f/(m g)"),
 })
 
 CHECKS.update({
- "C17": dict(level="fault_enumeration", ref="3 C17", technique="exhaustive checkpoint enumeration (E-CKPT): every catalogue type x {yaml, json, bin} x {string/bytes, file} x every step index of short runs as save/load point; resumed run compared with the uninterrupted run",
+ "C17": dict(level="fault_enumeration", ref="3 C17", technique="exhaustive checkpoint enumeration (E-CKPT): every catalogue type x {yaml, json, bin} x {string/bytes, file} x every step index of short runs as save/load point; resumed run compared with the uninterrupted run; every single-flag variant of every catalogue object (each boolean option flipped in turn); every spelling of the string / reader API",
    text="Every exported model type in default and stepped states is written and read back in each advertised format through both APIs; for the four simulation kinds every step index of three run shapes is used as the checkpoint: save, load, save and load again (no drift), then the original and the reloaded copy are both run to the end and must agree step for step and in the final object (bit-exact for yaml/bin through the serialized view, 1e-9 relative for json).",
    note="three known serde limitations are listed in KNOWN_FINDINGS.txt keyed by (format, cause class); objects in those classes are only covered in the remaining formats; load(save(x)) == x is not demanded field by field because init() normalises derived state"),
 })
 
 CHECKS.update({
- "C18": dict(level="model_checking", ref="3 C18", technique="exhaustive interleaving exploration of the batch-walk contract with the real LocomotiveSimulation::walk as element bodies (shuttle check_dfs for N<=3, explicit (2N)!/2^N event enumeration for N=4,5, cross-checked), bound to the real rayon walk(true) in pools of 1..16 threads; exhaustive enumeration of hash-map iteration orders; sampled twin-run tripwire (labelled, not deciding)",
+ "C18": dict(level="model_checking", ref="3 C18", technique="exhaustive interleaving exploration of the batch-walk contract with the real LocomotiveSimulation::walk as element bodies (shuttle check_dfs for N<=3, explicit (2N)!/2^N event enumeration for N=4,5, cross-checked), bound to the real rayon walk(true) in pools of 1..16 threads; exhaustive enumeration of hash-map iteration orders; sampled twin-run tripwire (labelled, not deciding); an explorer finding that a fresh process does not reproduce is itself reported (result depends on process history)",
    text="Every interleaving of every batch of up to 3 elements (and the stated N=4, 5 batches) of real locomotive simulations under rayon's try_for_each contract is executed in one process: each element must end bit-equal to its own serial walk or untouched, the batch result must be consistent and name a failing element that ran. The real parallel walk in pools of 1..16 threads must only produce outcomes of the explored set, and the serial batch walk must equal the element-wise serial reference. All 3! iteration orders of the three std hash containers are realised and must not change any output.",
    note="rayon is modelled by its contract, not instrumented; the twin-run part samples hash seeds and never decides"),
 })
